@@ -35,6 +35,7 @@ type mitm struct {
 	// ended by the delivery cap instead of the fake-time horizon.
 	afterAlter int
 	cut        bool
+	dropHVR    int // number of HelloVerifyRequest datagrams still to be lost on the way to the client
 }
 
 // deliveryCap bounds the deliveries after the first altered one. A failing DTLS 1.2 run needs about a dozen
@@ -135,6 +136,14 @@ func (a *mitm) pump(hz time.Duration, stop func() bool) {
 		}
 		if d := w.Head(); d != nil {
 			w.Take(d)
+			if a.dropHVR > 0 && d.Src != world.ClientAddr {
+				if recs, err := parseDatagram(d.Data); err == nil && len(recs) == 1 && len(recs[0].Msgs) == 1 && recs[0].Msgs[0].Type == hsHelloVerifyRequest {
+					a.dropHVR--
+					a.sawHVR = true
+					a.event("LOSE %s %s", dirName(d.Src), world.Describe(d.Data))
+					continue
+				}
+			}
 			out, altered := a.rewrite(d)
 			if a.err != nil {
 				return
